@@ -1764,9 +1764,10 @@ func (m *Machine) recoverFinalPhase() {
 			continue
 		}
 
-		if t.latestHandlerIsEnter {
+		// entered states go away, exited ones come back
+		if slices.Contains(t.Enters, s) {
 			activeStates = slicesWithout(activeStates, s)
-		} else {
+		} else if !slices.Contains(activeStates, s) {
 			activeStates = append(activeStates, s)
 		}
 	}
